@@ -31,6 +31,15 @@ Theorem C07_failed_upgrade_keeps_transport_partial : forall sched,
   c_ws st = false /\ s_ws st = false /\ c_closed st = false /\ s_closed st = false.
 Proof. exact failed_upgrade_keeps_transport. Qed.
 
+(** Repaired client (Pause before the probe, UPGRADE only once polling has stopped): after the swap
+    no long-polling request is in flight and no response is on its way, for every schedule - a late
+    poll response can no longer land between two websocket messages (the Socket.IO header and its
+    attachments). *)
+Theorem C07_no_poll_delivery_after_swap : forall sched,
+  let st := run sched init in
+  c_ws st = true -> c_loop st <> LFlight /\ k_req st = false /\ k_resp st = RNone.
+Proof. exact no_poll_in_flight_after_swap. Qed.
+
 (** A close reported by the superseded (old) transport after the swap changes nothing: the socket
     stays open on the new transport, on both sides, in every state. *)
 Theorem C07_superseded_close_ignored : forall st st',
